@@ -26,7 +26,7 @@ core.coq_makefile()
 rc, out = core.sh('make -k -j%d -f Makefile.coq' % core.NCPU, cwd=core.COQ, timeout=3600)
 print(out[-3000:])
 print('coq build rc=%d (%.0fs)' % (rc, time.time() - t0))
-for v in ('rel',):
+for v in ('rel', 'asan'):
     ok, d, log = build.ensure_lib(v)
     print('lib', v, 'ok' if ok else 'FAILED', '(%.0fs)' % (time.time() - t0))
     if not ok:
